@@ -65,40 +65,6 @@ theorem encode_decode_own_form (S : Schema) (hS : S.WF) (d : Node) (v : List Val
   subst hd
   exact ⟨by rw [decode_encode S hS v hv], reserialize_same S hS v hv⟩
 
-/-! ## classes whose writer drops an attribute the parser reads (`Field.attrReadOnly`)
-
-`S.fix` is the repaired schema, `resetFs` forgets in a value exactly the dropped attributes. -/
-
-/-- the parsers of the code as it is and of the repaired class agree on every tree -/
-theorem parse_fix (S : Schema) (x : Node) : S.fix.parse x = S.parse x := by
-  have hd : ∀ y, S.fix.decode y = S.decode y := fun y => decFs_fix S.fields _ y
-  have ha : S.fix.admit x = S.admit x := rfl
-  simp only [Schema.parse, ha]
-  split
-  · rename_i y _
-    rw [hd y]
-    simp only [Schema.fix, mandOK_fix]
-  · rfl
-
-/-- today's output for `v` is the repaired class's output for `v` with the dropped attributes forgotten -/
-theorem encode_code_eq (S : Schema) (hS : S.fix.WF) (v : List Val) :
-    S.fix.encode (resetFs S.fields v) = S.encode v := by
-  obtain ⟨_, _, hwf, _⟩ := hS
-  simp only [Schema.encode, Schema.fix] at hwf ⊢
-  rw [encFs_fix_reset S.fields _ v hwf]
-
-/-- **Round trip of the code as it is: every field survives except the attributes the writer drops**,
-which read back as their default.  (For a schema without such attributes `resetFs` is the identity and
-this is `decode_encode`.) -/
-theorem decode_encode_code (S : Schema) (hS : S.fix.WF) (v : List Val) (hv : S.Canon v) :
-    S.parse (S.encode v) = some (resetFs S.fields v) := by
-  have hc : S.fix.Canon (resetFs S.fields v) :=
-    ⟨canonFs_fix_reset S.fields v hv.1, by
-      show mandOK (fixFs S.fields) (resetFs S.fields v) = true
-      rw [mandOK_fix, mandOK_reset]; exact hv.2⟩
-  rw [← parse_fix, ← encode_code_eq S hS v]
-  exact parse_encode S.fix hS _ hc
-
 /-! ## the modelled classes: each inherits the theorems above -/
 open Classes
 
@@ -137,49 +103,9 @@ theorem wf_SdpParameter : SdpParameter.WF := by decide
 theorem wf_RtpFeedbackInterval : RtpFeedbackInterval.WF := by decide
 theorem wf_TrustMessageKeyOwner : TrustMessageKeyOwner.WF := by decide
 theorem wf_TrustMessageElement : TrustMessageElement.WF := by decide
-/-- `FastFeature` / the SASL 2 stream feature once `tls-0rtt` is written (fixes/C01-fastfeature-tls0rtt.diff) -/
-theorem wf_FastFeature_fixed : FastFeature.WF := by decide
-theorem wf_Sasl2StreamFeature_fixed : Sasl2StreamFeature.WF := by decide
-theorem wf_StreamFeatures_fixed : StreamFeatures.WF := by decide
-
-/-! ## defect of today's code -/
-
-/-- **`FastFeature` (XEP-0484 stream feature) loses `tls0rtt`.** `fromDom` reads the `tls-0rtt`
-attribute, `toXml` never writes it: the object `{mechanisms = [], tls0rtt = true}` serializes to
-`<fast xmlns="urn:xmpp:fast:0"/>` and reads back with `tls0rtt = false`.  The full round-trip
-statement is false for the schema of the code as it is. -/
-theorem C01_defect_fastfeature_tls0rtt :
-    ¬ (∀ v, FastFeatureCode.Canon v → FastFeatureCode.decode (FastFeatureCode.encode v) = v) := by
-  intro h
-  have h1 := h [.list [], .flag true] (by decide)
-  have h2 : FastFeatureCode.decode (FastFeatureCode.encode [.list [], .flag true]) = [.list [], .flag false] := by
-    rfl
-  rw [h2] at h1
-  simp at h1
-
-/-- the same loss inside `<authentication xmlns="urn:xmpp:sasl:2"><inline><fast tls-0rtt="true"/>…` -/
-theorem C01_defect_sasl2feature_tls0rtt :
-    ¬ (∀ v, Sasl2StreamFeatureCode.Canon v →
-        Sasl2StreamFeatureCode.decode (Sasl2StreamFeatureCode.encode v) = v) := by
-  intro h
-  have h1 := h [.list [], .record [.absent, .record [.list [], .flag true], .absent]] (by decide)
-  have h2 : Sasl2StreamFeatureCode.decode (Sasl2StreamFeatureCode.encode
-      [.list [], .record [.absent, .record [.list [], .flag true], .absent]])
-      = [.list [], .record [.absent, .record [.list [], .flag false], .absent]] := by
-    rfl
-  rw [h2] at h1
-  simp at h1
-
-/-- the repaired schemas are exactly the `fix` of the schemas of the code as it is, so
-`decode_encode_code` and `C02Codec.norm_idem_code` apply to today's classes -/
-theorem fix_FastFeatureCode : FastFeatureCode.fix.WF := by decide
-theorem fix_Sasl2StreamFeatureCode : Sasl2StreamFeatureCode.fix.WF := by decide
-theorem fix_StreamFeaturesCode : StreamFeaturesCode.fix.WF := by decide
-
-/-- the generic theorems do not apply to the schemas of the code as it is: they are not well-formed -/
-theorem not_wf_FastFeatureCode : ¬ FastFeatureCode.WF := by decide
-theorem not_wf_Sasl2StreamFeatureCode : ¬ Sasl2StreamFeatureCode.WF := by decide
-theorem not_wf_StreamFeaturesCode : ¬ StreamFeaturesCode.WF := by decide
+theorem wf_FastFeature : FastFeature.WF := by decide
+theorem wf_Sasl2StreamFeature : Sasl2StreamFeature.WF := by decide
+theorem wf_StreamFeatures : StreamFeatures.WF := by decide
 
 /-! ## non-vacuity: concrete values meeting the hypotheses -/
 
@@ -195,6 +121,9 @@ example : Bind2Feature.Canon [.record [.list [.record [.str "urn:xmpp:carbons:2"
 example : Sasl2Failure.WF ∧ Sasl2Failure.Canon [.opt (some 9), .record [.str " \n<not-authorized/>".toList]] := by decide
 /-- out-of-range values are excluded, not silently accepted -/
 example : ¬ SmAck.Canon [.nat 4294967296] := by decide
+/-- the value that did not survive before /repo e3c2af8 (`tls0rtt = true`) is a canonical value of the
+repaired class, so `decode_encode` now covers it -/
+example : FastFeature.Canon [.list [], .flag true] := by decide
 example : ¬ Sasl2Failure.Canon [.opt none, .record [.str []]] := by decide
 /-- Base64 bodies: any byte string, including NUL and 0xFF; a mandatory non-empty list -/
 example : Sasl2Continue.WF ∧ Sasl2Continue.Canon
